@@ -413,8 +413,9 @@ impl EventGen for GroupElement {
         // (the evaluated value is needed again below, for the bounding box)
         let transform = new_el.get_attr("transform");
 
-        // push variables onto the stack
-        context.push_element(&self.0);
+        // push variables onto the stack: the group's attributes as evaluated here,
+        // where the group opens (not re-evaluated by whatever reads them inside it)
+        context.push_element(&new_el);
 
         let mut content_bb = None;
         let mut events = OutputList::new();
